@@ -18,22 +18,25 @@ func (p *Pool) lazyResend() {
 
 	p.sendWg.Add(1)
 	go func() {
-		defer func() {
-			p.lazySendM.Unlock()
-			p.sendWg.Done()
-		}()
+		defer p.sendWg.Done()
 
 		for {
 			p.listM.Lock()
 			n := p.el.PopBack()
-			p.listM.Unlock()
 			if n == nil {
+				// The decision to exit is taken under the list mutex: a Send that defers its
+				// event after this point finds lazySendM free and starts a new flusher, one
+				// that did it before has been seen by the PopBack above.
 				verifhook.Point("fl.beforeExit")
+				p.lazySendM.Unlock()
+				p.listM.Unlock()
 				return
 			}
+			p.listM.Unlock()
 
 			select {
 			case <-p.ctx.Done():
+				p.lazySendM.Unlock()
 				return
 			case p.ch <- n.V():
 				p.pool.Release(n)
